@@ -6,6 +6,9 @@
 #include <fstream>
 
 static Spy SPY0(0);
+static Spy HSPY[3] = {Spy(0), Spy(1), Spy(2)};
+static const char* LIT[] = {"lit0", "lit1", "", "a", "key", "123", "-4.5e2"};
+static string HLOG() { string l = GLOG; GLOG.clear(); return l.empty() ? l : l.substr(1); }
 
 static int cfgBits() {
   return (ARDUINOJSON_ENABLE_COMMENTS ? 1 : 0) | (ARDUINOJSON_ENABLE_NAN ? 2 : 0) | (ARDUINOJSON_ENABLE_INFINITY ? 4 : 0) |
@@ -197,6 +200,9 @@ int main(int argc, char** argv) {
       DeserializationError e2 = deserializeMsgPack(d2, mp.data(), mp.size(), DeserializationOption::NestingLimit(120));
       out = string(e.c_str()) + " " + showS(d.as<JsonVariantConst>()) + " " + e2.c_str() + " " + showS(d2.as<JsonVariantConst>()) +
             (d.as<JsonVariantConst>() == d2.as<JsonVariantConst>() ? " eq" : " ne");
+    } else if (op == "geoq") {
+      out = std::to_string((int)ARDUINOJSON_POOL_CAPACITY) + " " + std::to_string((int)ARDUINOJSON_INITIAL_POOL_COUNT) + " " + std::to_string((int)ARDUINOJSON_SLOT_ID_SIZE) + " " +
+            std::to_string((int)StringNode::sizeForLength(0)) + " " + std::to_string((unsigned long long)StringNode::maxLength);
     } else if (op == "conv") {
       // C13: every typed extraction of the root value
       int cfg; string spec; is >> cfg >> spec;
@@ -243,6 +249,87 @@ int main(int argc, char** argv) {
       else if (kind == "cs") { string x0 = unhex(val); const char* x = keep(x0); BITS(x) }
       else out = "bad-kind";
 #undef BITS
+    } else if (op == "reset" || op == "geo" || op == "root" || op == "mem" || op == "memw" || op == "elem" || op == "elemw" || op == "set" || op == "setm" ||
+               op == "sete" || op == "add" || op == "addv" || op == "toarr" || op == "toobj" || op == "remi" || op == "remk" || op == "clear" || op == "cleardoc" ||
+               op == "copydoc" || op == "swapdoc" || op == "movedoc" || op == "shrink" || op == "obs" || op == "obsx" || op == "failat" || op == "failfrom" || op == "nofail" || op == "ledger" ||
+               op == "hser" || op == "liveq") {
+      // API histories over 3 documents (each with its own spying allocator) and 10 references
+      static std::vector<JsonDocument>* docsp = nullptr;
+      static std::vector<JsonVariant> refs(10);
+      if (!docsp) { docsp = new std::vector<JsonDocument>(); for (int i = 0; i < 3; i++) { HSPY[i].logging = true; docsp->emplace_back(&HSPY[i]); } }
+      std::vector<JsonDocument>& docs = *docsp;
+      auto val = [&](JsonVariant dst, bool viaAdd, const string& kind, const string& arg) -> bool {
+#define DO(x) (viaAdd ? dst.add(x) : dst.set(x))
+        if (kind == "null") return DO(nullptr);
+        if (kind == "bool") return DO(arg == "1");
+        if (kind == "i") return DO((long long)strtoll(arg.c_str(), 0, 10));
+        if (kind == "u") return DO((unsigned long long)strtoull(arg.c_str(), 0, 10));
+        if (kind == "i8") return DO((signed char)strtoll(arg.c_str(), 0, 10));
+        if (kind == "u16") return DO((unsigned short)strtoull(arg.c_str(), 0, 10));
+        if (kind == "f") { uint32_t b = (uint32_t)strtoul(arg.c_str(), 0, 16); float f; memcpy(&f, &b, 4); return DO(f); }
+        if (kind == "d") { uint64_t b = strtoull(arg.c_str(), 0, 16); double f; memcpy(&f, &b, 8); return DO(f); }
+        if (kind == "sl") return DO(LIT[atoi(arg.c_str())]);
+        if (kind == "sc") { string s = unhex(arg); return DO(s); }
+#if __cplusplus >= 201703L
+        if (kind == "sv") { string s = unhex(arg); std::string_view v(s); bool r = DO(v); s.assign(s.size(), 'Z'); return r; }
+#endif
+        if (kind == "sp") { string s = unhex(arg); std::vector<char> b(s.begin(), s.end()); b.push_back(0); char* p = b.data(); bool r = DO(p); memset(b.data(), 'Z', b.size()); return r; }
+        if (kind == "sj") { string s = unhex(arg); bool r = DO(JsonString(s.data(), s.size(), JsonString::Copied)); s.assign(s.size(), 'Z'); return r; }
+        if (kind == "sjl") { string s = unhex(arg); return DO(JsonString(keep(s), JsonString::Linked)); }
+        if (kind == "raw") { string s = unhex(arg); return DO(serialized(s)); }
+        if (kind == "ref") return DO(refs[atoi(arg.c_str())]);
+        if (kind == "doc") return DO(docs[atoi(arg.c_str())]);
+        return false;
+#undef DO
+      };
+      if (op == "reset") { for (int i = 0; i < 3; i++) { JsonDocument e(&HSPY[i]); swap(docs[i], e); } for (auto& r : refs) r = JsonVariant(); for (auto& s : HSPY) { s.resetCounters(); s.logging = true; } GLOG.clear(); }
+      else if (op == "geo") { int a, b, c, so; is >> a >> b >> c >> so;
+        if (a != ARDUINOJSON_POOL_CAPACITY || b != ARDUINOJSON_INITIAL_POOL_COUNT || c != ARDUINOJSON_SLOT_ID_SIZE || so != (int)StringNode::sizeForLength(0)) { std::cout << "geo-mismatch\n"; continue; } }
+      else if (op == "root") { int r, d; is >> r >> d; refs[r] = docs[d].as<JsonVariant>(); }
+      else if (op == "mem") { int r, r2; string k; is >> r >> r2 >> k; string key = unhex(k); JsonVariant v = refs[r2][key]; refs[r] = v; }
+      else if (op == "memw") { int r, r2; string k; is >> r >> r2 >> k; string key = unhex(k); refs[r] = refs[r2][key].to<JsonVariant>(); }
+      else if (op == "elem") { int r, r2; size_t i; is >> r >> r2 >> i; JsonVariant v = refs[r2][i]; refs[r] = v; }
+      else if (op == "elemw") { int r, r2; size_t i; is >> r >> r2 >> i; refs[r] = refs[r2][i].to<JsonVariant>(); }
+      else if (op == "set") { int r; string k, a; is >> r >> k >> a; out = val(refs[r], false, k, a) ? "1" : "0"; }
+      else if (op == "setm") { int r; string key, k, a; is >> r >> key >> k >> a; string ks = unhex(key); auto px = refs[r][ks]; bool ok;
+        if (k == "null") ok = px.set(nullptr); else if (k == "i") ok = px.set((long long)strtoll(a.c_str(), 0, 10)); else if (k == "sc") { string s = unhex(a); ok = px.set(s); }
+        else if (k == "sl") ok = px.set(LIT[atoi(a.c_str())]); else if (k == "ref") ok = px.set(refs[atoi(a.c_str())]);
+        else if (k == "d") { uint64_t b = strtoull(a.c_str(), 0, 16); double f; memcpy(&f, &b, 8); ok = px.set(f); } else ok = false; out = ok ? "1" : "0"; }
+      else if (op == "sete") { int r; size_t i; string k, a; is >> r >> i >> k >> a; auto px = refs[r][i]; bool ok;
+        if (k == "null") ok = px.set(nullptr); else if (k == "i") ok = px.set((long long)strtoll(a.c_str(), 0, 10)); else if (k == "sc") { string s = unhex(a); ok = px.set(s); }
+        else if (k == "ref") ok = px.set(refs[atoi(a.c_str())]); else ok = false; out = ok ? "1" : "0"; }
+      else if (op == "add") { int r; string k, a; is >> r >> k >> a; out = val(refs[r], true, k, a) ? "1" : "0"; }
+      else if (op == "addv") { int r, r2; is >> r >> r2; refs[r] = refs[r2].add<JsonVariant>(); }
+      else if (op == "toarr") { int r, r2; is >> r >> r2; JsonArray a = refs[r2].to<JsonArray>(); refs[r] = a; }
+      else if (op == "toobj") { int r, r2; is >> r >> r2; JsonObject o = refs[r2].to<JsonObject>(); refs[r] = o; }
+      else if (op == "remi") { int r; size_t i; is >> r >> i; refs[r].remove(i); }
+      else if (op == "remk") { int r; string k; is >> r >> k; string key = unhex(k); refs[r].remove(key); }
+      else if (op == "clear") { int r; is >> r; refs[r].clear(); }
+      else if (op == "cleardoc") { int d; is >> d; docs[d].clear(); }
+      else if (op == "copydoc") { int d, e; is >> d >> e; docs[d] = docs[e]; }
+      else if (op == "swapdoc") { int d, e; is >> d >> e; swap(docs[d], docs[e]); }
+      else if (op == "shrink") { int d; is >> d; docs[d].shrinkToFit(); }
+      else if (op == "failat") { int d; long k; is >> d >> k; HSPY[d].failAt.insert(HSPY[d].calls + k); }
+      else if (op == "failfrom") { int d; long k; is >> d >> k; HSPY[d].failFrom = HSPY[d].calls + k; }
+      else if (op == "nofail") { int d; is >> d; HSPY[d].failAt.clear(); HSPY[d].failFrom = -1; }
+      else if (op == "ledger") { for (int i = 0; i < 3; i++) out += "L" + std::to_string(i) + "=" + std::to_string(HSPY[i].live.size()) + " "; }
+      else if (op == "hser") { int d; is >> d; string j, m; serializeJson(docs[d], j); serializeMsgPack(docs[d], m); out = (j.empty() ? "-" : hexs(j)) + " " + (m.empty() ? "-" : hexs(m)); }
+      else if (op == "obs") {
+        string sx; for (auto& d : docs) { show(d.as<JsonVariantConst>(), sx); sx += " n=" + std::to_string(d.nesting()) + " z=" + std::to_string(d.size()) + " o=" + (d.overflowed() ? "1" : "0") + " ; "; }
+        int r; while (is >> r) { sx += "r" + std::to_string(r) + "="; show(refs[r], sx); sx += " z=" + std::to_string(refs[r].size()) + " n=" + std::to_string(refs[r].nesting()) + " "; }
+        out = sx; }
+      else if (op == "obsx") { int r; is >> r; JsonVariantConst v = refs[r]; char buf[300];
+        double g = v.as<double>(); float f = v.as<float>(); uint32_t fb; uint64_t gb; memcpy(&fb, &f, 4); memcpy(&gb, &g, 8);
+        JsonString js = v.as<JsonString>();
+        snprintf(buf, sizeof buf, "i64=%lld u64=%llu i8=%d f=%08x d=%016llx b=%d is=%d%d%d%d%d%d%d%d str=%s", (long long)v.as<long long>(), (unsigned long long)v.as<unsigned long long>(), (int)v.as<signed char>(),
+                 fb, (unsigned long long)gb, (int)v.as<bool>(), (int)v.is<long long>(), (int)v.is<double>(), (int)v.is<bool>(), (int)v.is<const char*>(), (int)v.is<JsonString>(),
+                 (int)v.is<JsonArrayConst>(), (int)v.is<JsonObjectConst>(), (int)v.isNull(), js.c_str() ? ("S" + hexs(js.c_str(), js.size())).c_str() : "null");
+        out = buf;
+        if (js.c_str() && js.c_str()[js.size()] != 0) out += " NOT-NUL-TERMINATED";
+        const char* cs = v.as<const char*>(); if ((cs == nullptr) != (js.c_str() == nullptr)) out += " CSTR-MISMATCH"; }
+      string lg = HLOG();
+      out = op + " " + out + "|" + lg;
+      for (auto& sp : HSPY) if (sp.bad) out += " ALLOCATOR-MISUSE";
     } else if (op == "stream" || op == "mpstream") {
       // successive calls on one reader until the input is exhausted or 40 calls were made
       int cfg = 0, lim, chunk; string hex;
